@@ -112,7 +112,21 @@ def real_run(case):
                 log.append(None)
             return r
 
-    sim = Simulator(build_model(case["pars"]), integrator=Recording)
+    # constructor options (public parameters): explicit y0, use_jacobian, test_run, integrator keyword arguments
+    ctor = case.get("ctor") or {}
+    integ = Recording
+    if ctor.get("kw"):
+        import functools
+
+        integ = functools.partial(Recording, **ctor["kw"])
+    kwargs = {}
+    if case.get("y0"):
+        kwargs["y0"] = {k: float(F(v)) for k, v in case["y0"]}
+    if ctor.get("jac"):
+        kwargs["use_jacobian"] = True
+    if ctor.get("test_run") is False:
+        kwargs["test_run"] = False
+    sim = Simulator(build_model(case["pars"]), integrator=integ, **kwargs)
     outs, snaps, ops = [], [], []
     for op in case["ops"]:
         kind = op[0]
@@ -239,7 +253,7 @@ def eval_term(t, memo):
     if key in memo:
         return memo[key]
     if t[0] == "i":
-        out = dict(Y0)
+        out = dict(memo.get("y0") or Y0)
     elif t[0] == "o":
         out = dict(eval_term(t[2], memo))
         for k, v in t[1]:
@@ -259,11 +273,11 @@ def close(a, b):
     return abs(a - b) <= ATOL + RTOL * max(abs(a), abs(b))
 
 
-def model_snap(js):
-    """driver snapshot -> (exact part, evaluated states)"""
+def model_snap(js, y0=None):
+    """driver snapshot -> (exact part, evaluated states); y0 = the initial state given to the constructor"""
     if js["segs"] is None:
         return {"failed": js["failed"], "pars": sorted(js["pars"]), "segs": None}, None
-    memo = {}
+    memo = {"y0": {k: float(F(v)) for k, v in y0} if y0 else None}
     segs, vals = [], []
     for s in js["segs"]:
         segs.append({"idx": [r[0] for r in s["rows"]], "pars": sorted(s["pars"])})
@@ -338,8 +352,8 @@ def is_inexact(case):
 def assemble(case, real, drv):
     """-> (R, M, S, okhist) canonical observation objects"""
     inexact = is_inexact(case)
-    S_parts = [model_snap(s) for s in drv["spec"]["snaps"]]
-    M_parts = [model_snap(s) for s in drv["impl"]["snaps"]]
+    S_parts = [model_snap(s, case.get("y0")) for s in drv["spec"]["snaps"]]
+    M_parts = [model_snap(s, case.get("y0")) for s in drv["impl"]["snaps"]]
     # the model's states are snapped to the spec's when they agree to tolerance (different
     # but equivalent flow compositions evaluate to slightly different doubles)
     M_snaps = []
@@ -379,7 +393,8 @@ def py_oracle(case, real):
     broken): absolute clock, closed form integrated directly.  Returns a list of complaints."""
     bad = []
     p = {k: F(v) for k, v in case["pars"]}
-    now, cur, y0 = F(0), dict(Y0), dict(Y0)
+    init = {k: float(F(v)) for k, v in case["y0"]} if case.get("y0") else dict(Y0)
+    now, cur, y0 = F(0), dict(init), dict(init)
     have = False
     failed = False
     snaps = iter(real["snaps"])
@@ -541,19 +556,44 @@ def gen_random(rng, allow_steady=True, min_len=3, max_len=8):
             ops.append(["par", kv])
         elif r < 0.93:
             names = rng.sample(VARS, rng.randint(1, 2))
-            kv = [[v, rng.choice(["0", "1", "5/2", "8"])] for v in names]
+            # also overrides that restate a value the variable had before (its initial value, an earlier override)
+            kv = [[v, rng.choice(["0", "1", "5/2", "8", "4", "1"])] for v in names]
             if rng.random() < 0.05:
                 kv.append(["ghost", "1"])
             ops.append(["var", kv])
         else:
             ops.append(["clear"])
             now = Fraction(0)
-    return {"pars": pars, "ops": ops}
+    case = {"pars": pars, "ops": ops}
+    if rng.random() < 0.2:
+        # constructor options: the results must not depend on them
+        if rng.random() < 0.6:
+            case["y0"] = [["x", rng.choice(["0", "1", "4", "6"])], ["z", rng.choice(["0", "1", "5/2"])]]
+        ctor = {}
+        r = rng.random()
+        if r < 0.3:
+            ctor["jac"] = True
+        elif r < 0.5:
+            ctor["test_run"] = False
+        elif r < 0.8:
+            ctor["kw"] = {"atol": 1e-10, "rtol": 1e-10}
+        elif not any(o[0] == "steady" for o in ops):
+            ctor["kw"] = {"method": "RK45", "atol": 1e-10, "rtol": 1e-10}
+        if ctor:
+            case["ctor"] = ctor
+    return case
 
 
 def shape_of(case):
     ab = {"sim": "S", "tc": "T", "steady": "Y", "par": "P", "var": "V", "clear": "C", "proto": "R", "ptc": "Q"}
-    return "".join(ab[o[0]] for o in case["ops"])
+    pre = ""
+    if case.get("y0"):
+        pre += "y0="
+    ctor = case.get("ctor") or {}
+    if ctor:
+        pre += ("jac" if ctor.get("jac") else "notest" if ctor.get("test_run") is False
+                else "method" if "method" in ctor.get("kw", {}) else "tol") + ":"
+    return pre + "".join(ab[o[0]] for o in case["ops"])
 
 
 def nontrivial(real):
